@@ -17,6 +17,7 @@ CONSTANTS
   XUses = {}
   XParams = {}
   XVals = {}
+  TplKinds = {}
   NumParams = {}
   StrParams = {}
   SupVals = {}
